@@ -106,6 +106,12 @@ func vfValidate(cfg *SubscriberGroupsConfig) string {
 	var s, c int
 	var prev, name string
 	msg := verr.Error()
+	if strings.Contains(msg, "]: invalid ") {
+		// fixes/C14_validate_rejects_malformed.patch: subscriber-group %q vlans[%d]: invalid svlan|cvlan: ...
+		var which string
+		fmt.Sscanf(msg, "subscriber-group %q vlans[%d]: invalid %s", &name, &c, &which)
+		return fmt.Sprintf("malformed %s %d %s", vfEncode(name), c, strings.TrimSuffix(which, ":"))
+	}
 	if strings.Contains(msg, "cvlan any") {
 		fmt.Sscanf(msg, "subscriber-group VLAN collision on svlan %d cvlan any: claimed by both %q and %q", &s, &prev, &name)
 		return fmt.Sprintf("collision %d any %s %s", s, vfEncode(prev), vfEncode(name))
